@@ -66,8 +66,8 @@ func (v *Vue) processComponentNode(node *html.Node) error {
 			if err := v.replaceWithInclude(node, filename); err != nil {
 				return err
 			}
-			// Don't process children since we've replaced the node
-			return nil
+			// The children are the content supplied to the component's
+			// slots; component tags written there are resolved as well.
 		}
 	}
 
